@@ -599,6 +599,125 @@ Proof.
   unfold capp. rewrite !Ok. reflexivity.
 Qed.
 
+(* ---------- failing appends delete exactly the failed thread frames; nothing else of a run changes ---------- *)
+Lemma keeps_frames_at aok sid q ks : filter (keeps aok) (frames_at sid q ks) = frames_at sid q ks.
+Proof. revert q; induction ks as [|k ks IH]; intro q; cbn [frames_at filter keeps]; [reflexivity | now rewrite IH]. Qed.
+Lemma keeps_capp aok k : capp aok k = filter (keeps aok) (capp all_ok k).
+Proof. unfold capp, all_ok. cbn [filter keeps]. destruct (aok k); reflexivity. Qed.
+Lemma keeps_side_effects aok sid link : side_effects sid link aok = filter (keeps aok) (side_effects sid link all_ok).
+Proof. unfold side_effects. destruct link; [apply keeps_capp | reflexivity]. Qed.
+
+Lemma run_calls_keeps sid link aok calls : forall count seq,
+  run_calls sid link aok calls count seq
+  = let '(evs, s, c, ex) := run_calls sid link all_ok calls count seq in (filter (keeps aok) evs, s, c, ex).
+Proof.
+  induction calls as [|c rest IH]; intros count seq; cbn [run_calls]; [reflexivity|].
+  destruct (MAX_TOOL_CALLS <=? count); [reflexivity|]. rewrite IH.
+  destruct (run_calls sid link all_ok rest _ _) as [[[evs1 s1] c1] e1].
+  rewrite !filter_app, keeps_frames_at.
+  assert (SE : (if c_allowed c && c_lock c then side_effects sid link aok else [])
+               = filter (keeps aok) (if c_allowed c && c_lock c then side_effects sid link all_ok else [])).
+  { destruct (c_allowed c && c_lock c); [apply keeps_side_effects | reflexivity]. }
+  rewrite SE. reflexivity.
+Qed.
+
+Lemma agent_loop_keeps sid link aok st reqs : forall count seq prev fu,
+  agent_loop sid link aok st reqs count seq prev fu
+  = let '(evs, s, r, p) := agent_loop sid link all_ok st reqs count seq prev fu in (filter (keeps aok) evs, s, r, p).
+Proof.
+  induction reqs as [|r rest IH]; intros count seq prev fu; cbn [agent_loop].
+  - destruct (MAX_TOOL_CALLS <=? count); [reflexivity|]. destruct (fu && negb st && negb prev); [reflexivity|].
+    cbv zeta. rewrite keeps_frames_at. reflexivity.
+  - destruct (MAX_TOOL_CALLS <=? count); [reflexivity|]. destruct (fu && negb st && negb prev); [reflexivity|].
+    cbv zeta.
+    destruct r as [| |hst hbody| | |pf|pf hid calls]; try (rewrite keeps_frames_at; reflexivity).
+    destruct calls as [|c calls]; [rewrite keeps_frames_at; reflexivity|].
+    destruct (negb (hid || prev) && negb st); [rewrite keeps_frames_at; reflexivity|].
+    rewrite run_calls_keeps.
+    destruct (run_calls sid link all_ok (c :: calls) count _) as [[[evs1 s2] c'] ex].
+    destruct ex; [rewrite filter_app, keeps_frames_at; reflexivity|].
+    rewrite IH. destruct (agent_loop sid link all_ok st rest c' s2 (hid || prev) true) as [[[evs2 s3] r2] p2].
+    rewrite !filter_app, keeps_frames_at. reflexivity.
+Qed.
+
+Lemma last_reason_keeps aok sid l : forall acc, last_reason_from sid (filter (keeps aok) l) acc = last_reason_from sid l acc.
+Proof.
+  induction l as [|e l IH]; intro acc; [reflexivity|]. destruct e as [s q k|k]; cbn [filter keeps].
+  - destruct k; cbn [last_reason_from]; apply IH.
+  - destruct (aok k); cbn [last_reason_from]; apply IH.
+Qed.
+
+Lemma run_body_keeps g sid link aok inp :
+  run_body g sid link aok inp = filter (keeps aok) (run_body g sid link all_ok inp).
+Proof.
+  destruct inp as [cok reqs | lock t | r]; unfold run_body; cbn [run_body_with].
+  - destruct (g_provider g); cbn [negb]; [|unfold runtime_tail; now rewrite keeps_frames_at].
+    assert (A : (let '(evs, seq, reason, prev) := agent_loop sid link aok (g_stateless g) reqs 0 1 false false in
+                 evs ++ (if (reason =? R_COMPLETED) && prev
+                         then match link with Some _ => capp aok (CCursor sid) | None => [] end else [])
+                 ++ [ES sid seq (SEnded reason)])
+                = filter (keeps aok)
+                    (let '(evs, seq, reason, prev) := agent_loop sid link all_ok (g_stateless g) reqs 0 1 false false in
+                     evs ++ (if (reason =? R_COMPLETED) && prev
+                             then match link with Some _ => capp all_ok (CCursor sid) | None => [] end else [])
+                     ++ [ES sid seq (SEnded reason)])).
+    { rewrite agent_loop_keeps.
+      destruct (agent_loop sid link all_ok (g_stateless g) reqs 0 1 false false) as [[[evs seq] reason] prev].
+      rewrite !filter_app. cbn [filter keeps]. do 2 f_equal.
+      destruct ((reason =? R_COMPLETED) && prev); [|reflexivity]. destruct link; [apply keeps_capp | reflexivity]. }
+    destruct link as [mid|]; [destruct cok|].
+    + rewrite A, !filter_app, <- !keeps_capp. reflexivity.
+    + reflexivity.
+    + destruct cok; cbn [app]; exact A.
+  - rewrite !filter_app, keeps_frames_at. unfold runtime_tail. rewrite keeps_frames_at. do 2 f_equal.
+    destruct lock; [apply keeps_side_effects | reflexivity].
+  - rewrite filter_app. unfold runtime_tail. rewrite !keeps_frames_at. reflexivity.
+Qed.
+
+Theorem run_session_keeps g sid link aok inp :
+  run_session g sid link aok inp = filter (keeps aok) (run_session g sid link all_ok inp).
+Proof.
+  unfold run_session. rewrite filter_app. cbn [filter keeps]. rewrite <- run_body_keeps. f_equal.
+  destruct link as [mid|]; [|reflexivity].
+  rewrite (keeps_capp aok). do 3 f_equal.
+  unfold last_reason. rewrite (run_body_keeps g sid (Some mid) aok inp).
+  change (ES sid 0 SStarted :: filter (keeps aok) (run_body g sid (Some mid) all_ok inp))
+    with (filter (keeps aok) (ES sid 0 SStarted :: run_body g sid (Some mid) all_ok inp)).
+  apply last_reason_keeps.
+Qed.
+
+(* thread order WITHOUT AppendOk: whichever appends of the run fail (the message and its run_spawned reached the thread),
+   the run's projection of the log is the full, AppendOk-shaped sequence with exactly the frames whose append failed
+   removed - the frames that are there keep their order, the session stream is untouched, and run_ended (when its append
+   succeeds) is still the last frame, after the run's terminal session frame, with its reason *)
+Theorem thread_order_faulted aok acts l g mid sid inp :
+  WfActs acts -> Interleave (map (act_events aok) acts) l -> In (APost g mid sid inp) acts ->
+  aok (CMessage mid) = true -> aok (CRunSpawned sid mid) = true ->
+  exists pre q r,
+    filter (of_run sid) l
+    = filter (keeps aok)
+        (EC (CRunSpawned sid mid) :: ES sid 0 SStarted :: pre ++ [ES sid q (SEnded r); EC (CRunEnded sid mid r)])
+    /\ mid_kinds (map snd (sess_stream sid pre)) = true
+    /\ ThreadShape sid mid
+         (conts (EC (CRunSpawned sid mid) :: ES sid 0 SStarted :: pre ++ [ES sid q (SEnded r); EC (CRunEnded sid mid r)])) r.
+Proof.
+  intros W I Ha M1 M2.
+  assert (Hs : In sid (act_sids (APost g mid sid inp))) by (left; reflexivity).
+  assert (St : act_started aok (APost g mid sid inp) = true) by (cbn [act_started]; rewrite M1, M2; reflexivity).
+  rewrite (run_projection aok acts l _ sid W I Ha Hs).
+  destruct (act_events_own_run aok _ sid Hs St) as (g' & link & inp' & E & <- & -> & _ & <-). rewrite E. clear E.
+  (* the same post on a store where every append succeeds *)
+  assert (W1 : WfActs [APost g mid sid inp]).
+  { repeat split; cbn; repeat constructor; intros []. }
+  assert (I1 : Interleave (map (act_events all_ok) [APost g mid sid inp]) (act_events all_ok (APost g mid sid inp))).
+  { cbn [map]. eapply IL_cons; [apply IL_nil|]. induction (act_events all_ok (APost g mid sid inp)); constructor; assumption. }
+  destruct (thread_order all_ok _ _ g mid sid inp W1 I1 (or_introl eq_refl) (fun _ => eq_refl)) as (pre & q & r & F & Mk & Sh).
+  assert (St1 : act_started all_ok (APost g mid sid inp) = true) by reflexivity.
+  destruct (act_events_own_run all_ok _ sid Hs St1) as (g' & link & inp' & E1 & <- & -> & _ & <-).
+  rewrite E1 in F, Sh. exists pre, q, r. split; [|split; [exact Mk | rewrite <- F; exact Sh]].
+  rewrite <- F. cbn [app filter keeps]. rewrite M2, <- run_session_keeps. reflexivity.
+Qed.
+
 Lemma proj_count p aok acts l a pre post :
   Interleave (map (act_events aok) acts) l -> acts = pre ++ a :: post ->
   Forall (fun b => filter (ckp p) (act_events aok b) = []) pre ->
@@ -853,6 +972,15 @@ Proof.
   split; [exact drop_wf|]. split; [apply interleave_concat|]. split; [left; reflexivity|].
   split; vm_compute; reflexivity.
 Qed.
+
+(* non-vacuity / sharpness: three of the five appends of a full run fail *)
+Definition aok_demo (k : ck) : bool :=
+  match k with CCompiled _ | CCursor _ | CRunEnded _ _ _ => false | _ => true end.
+Lemma faulted_demo :
+  conts (run_session g_prov 100 (Some 200) aok_demo
+           (IPrompt true [ROk [false] true [{| c_allowed := true; c_lock := true; c_tool := {| t_auto := 1; t_res := TDone 0 0 |} |}]; ROk [true] true []]))
+  = [CSelection 100 200; CSideEffects 100].
+Proof. vm_compute. reflexivity. Qed.
 
 (* ---------- a finite list of provider answers is no restriction ---------- *)
 (* every executed tool round consumes at least one unit of the tool-call budget … *)
